@@ -116,3 +116,22 @@ def cond_ascii_only(s: str) -> bool:
     """
     c = canonserialize([s])
     return all(x < 128 for x in c) and c.decode('ascii').encode('utf-8') == c
+
+
+def cond_dict_inside_list_sorted(k1: str, k2: str, a: Leaf, b: Leaf) -> bool:
+    """
+    pre: len(k1) <= 2 and len(k2) <= 2 and k1 != k2 and _small(a, 1) and _small(b, 1)
+    post: _
+    """
+    d1 = {'l': [{k1: a, k2: b}], 't': [[{k2: b, k1: a}]]}
+    d2 = {'t': [[{k1: a, k2: b}]], 'l': [{k2: b, k1: a}]}
+    return canonserialize(d1) == ref_canon(d1) == canonserialize(d2) and canonserialize([{k1: a, k2: b}]) == canonserialize([{k2: b, k1: a}])
+
+
+def cond_written_file_is_canonical(i: int) -> bool:
+    """
+    pre: 0 <= i <= 3
+    post: _
+    """
+    from xhair import c08_roundtrip as R
+    return R.cond_overwrite_equal_but_different(i) and R.cond_overwrite_longer_by_shorter('a', i)
